@@ -6,4 +6,4 @@ CONSTANTS
   Predict = FALSE
   MaxMut = 0
   Sugars = {"script"}
-INVARIANTS Export Terminates StoreOK Predicted
+INVARIANTS Export Terminates StoreOK Predicted WellTypedInv
